@@ -1,0 +1,9 @@
+//go:build !verif
+
+package db
+
+// Hook of the deterministic-simulation harness (build tag "verif"). Without
+// the tag it is an empty function the compiler removes: the shipped behaviour
+// is unchanged.
+
+func verifYield(string) {}
